@@ -40,8 +40,18 @@ def dedup : List Nat → List Nat
   | [] => []
   | a :: l => if a ∈ dedup l then dedup l else a :: dedup l
 
-def upd {C α : Type} [DecidableEq C] (f : C → α) (c : C) (v : α) : C → α :=
-  fun c' => if c' = c then v else f c'
+/-- a finite partial map (the per-mailbox fields `poison`, `notify` of all mailboxes, keyed by the
+correlation ID); applied like a function, absent keys are `none`.  (A list rather than a closure
+so that the driver's cost per step does not grow with the age of the router.) -/
+structure Tab (C α : Type) where
+  l : List (C × α) := []
+
+def Tab.get {C α : Type} [DecidableEq C] (t : Tab C α) (c : C) : Option α := lookupE c t.l
+
+instance {C α : Type} [DecidableEq C] : CoeFun (Tab C α) (fun _ => C → Option α) := ⟨Tab.get⟩
+
+def upd {C α : Type} [DecidableEq C] (f : Tab C α) (c : C) (v : Option α) : Tab C α :=
+  ⟨v.toList.map (fun a => (c, a)) ++ f.l.filter (fun e => decide (e.1 ≠ c))⟩
 
 /-- which failure was latched in `fatal` -/
 inductive Fatal where
@@ -80,8 +90,8 @@ structure Config where
 structure State (C P : Type) where
   entries : List ((C × Nat) × P) := []
   buffered : Nat := 0
-  poison : C → Option Nat := fun _ => none
-  waiter : C → Option Waiter := fun _ => none
+  poison : Tab C Nat := {}
+  waiter : Tab C Waiter := {}
   fatal : Option Fatal := none
   /-- the reader goroutine has returned from `readLoop` -/
   stopped : Bool := false
@@ -233,6 +243,62 @@ def firstDeposit (cfg : Config) (tr : List (Step C P)) (cid : C) (id : Nat) : Op
     | .deliver sender c p => if sender = id ∧ c = cid ∧ id ∈ cfg.members then some p else none
     | _ => none
 
+/-- does the locked scan of the receive attached to `cid`, taken in state `s`, collect the payload
+of sender `id`? -/
+def collects (s : State C P) (cid : C) (id : Nat) : Bool :=
+  match s.waiter cid with
+  | some w => decide (w.phase = .running) && (s.poison cid).isNone && isComplete s cid w.exp && decide (id ∈ w.exp)
+  | none => false
+
+/-- ghost: the first payload `id` (a member) deposited under exactly `cid` since the last
+completed collection of `(cid, id)`; `s` is the state in which the step is taken -/
+def sinceStep (cfg : Config) (cid : C) (id : Nat) (s : State C P) (acc : Option P) : Step C P → Option P
+  | .deliver sender c p =>
+    if sender = id ∧ c = cid ∧ id ∈ cfg.members then
+      (match acc with
+       | some q => some q
+       | none => some p)
+    else acc
+  | .scan c => if c = cid ∧ collects s cid id = true then none else acc
+  | _ => acc
+
+def sinceRun (cfg : Config) (cid : C) (id : Nat) (tr : List (Step C P)) : State C P × Option P :=
+  tr.foldl (fun sa st => (step cfg sa.1 st, sinceStep cfg cid id sa.1 sa.2 st)) (init, none)
+
+/-- the payload the property demands without the one-exchange hypothesis -/
+def firstSince (cfg : Config) (tr : List (Step C P)) (cid : C) (id : Nat) : Option P :=
+  (sinceRun cfg cid id tr).2
+
+/-! ### mailbox objects (`boxes : map[string]*mailbox`)
+
+Which keys the Go map `boxes` holds is not part of `State` (no result of `ReceiveFrom` depends on
+it); it is tracked beside the state by `boxesStep`, which mirrors the three sites of `router.go`
+that touch the map: `boxFor` in `deposit` (after the quorum filter, before anything else),
+`boxFor` in the first critical section of `receiveFrom` (after the `fatal` check), and the
+`delete` in the deferred section (`len(box.payloads) == 0 && box.poison == nil`). -/
+
+def hasEntries (s : State C P) (cid : C) : Bool := s.entries.any fun e => decide (e.1.1 = cid)
+
+def addBox (cid : C) (b : List C) : List C := if cid ∈ b then b else cid :: b
+
+/-- the key set of `boxes` after the step `st` taken in state `s` -/
+def boxesStep (cfg : Config) (s : State C P) (b : List C) : Step C P → List C
+  | .deliver sender cid _ => if s.stopped then b else if sender ∈ cfg.members then addBox cid b else b
+  | .attach cid _ =>
+    match s.fatal with
+    | some _ => b
+    | none => addBox cid b
+  | .detach cid =>
+    match s.waiter cid with
+    | some w =>
+      if w.phase = .returning ∧ hasEntries s cid = false ∧ s.poison cid = none then b.erase cid else b
+    | none => b
+  | _ => b
+
+/-- state and mailbox keys after a step sequence -/
+def runBoxes (cfg : Config) (tr : List (Step C P)) (sb : State C P × List C) : State C P × List C :=
+  tr.foldl (fun sb st => (step cfg sb.1 st, boxesStep cfg sb.1 sb.2 st)) sb
+
 /-- no `ReceiveFrom` on `cid` has collected yet ("each correlation identifier is used for one exchange") -/
 def noCollect (s : State C P) (cid : C) : Prop :=
   ∀ m, (cid, Result.complete m) ∉ s.log
@@ -265,6 +331,10 @@ inductive Item (C P : Type) where
 inductive Event (C P : Type) where
   | enqueue (items : List (Item C P))
   | recv (rid : Nat) (cid : C) (exp : List Nat) (pre : Bool)
+  /-- a receive that the harness holds between its first scan (unlock) and its `select`: no
+  wake-up transition of it is scheduled until `release` -/
+  | recvHeld (rid : Nat) (cid : C) (exp : List Nat)
+  | release (rid : Nat)
   | cancel (rid : Nat)
   | close
 
@@ -275,9 +345,17 @@ structure L2 (C P : Type) where
   started : Bool := false
   active : List (Nat × C) := []
   results : List (Nat × Nat × Result P) := []   -- rid, index of the event, outcome; newest first
+  /-- receives held before their `select` -/
+  held : List Nat := []
+  /-- keys of the Go map `boxes` (see `boxesStep`) -/
+  boxes : List C := []
+  /-- `(buffered, number of mailbox objects)` after every event; newest first -/
+  obs : List (Nat × Nat) := []
+  /-- index of the event during which `ErrReceiveBufferFull` was latched -/
+  fullAt : Option Nat := none
 
 def doStep (cfg : Config) (l : L2 C P) (st : Step C P) : L2 C P :=
-  { l with core := step cfg l.core st, steps := st :: l.steps }
+  { l with core := step cfg l.core st, steps := st :: l.steps, boxes := boxesStep cfg l.core l.boxes st }
 
 def isReturning (l : L2 C P) (cid : C) : Bool :=
   match l.core.waiter cid with
@@ -295,6 +373,7 @@ def harvest (cfg : Config) (k rid : Nat) (cid : C) (l : L2 C P) : L2 C P :=
   else l
 
 def settleOne (cfg : Config) (k : Nat) (l : L2 C P) (a : Nat × C) : L2 C P :=
+  if a.1 ∈ l.held then l else
   match l.core.waiter a.2 with
   | some w =>
     if w.phase = .parked then
@@ -328,22 +407,26 @@ def pump (cfg : Config) (k : Nat) : Nat → L2 C P → L2 C P
 
 def pumpAll (cfg : Config) (k : Nat) (l : L2 C P) : L2 C P := pump cfg k (l.queue.length + 1) l
 
+def recvEvent (cfg : Config) (k : Nat) (l : L2 C P) (rid : Nat) (cid : C) (exp : List Nat) (pre hold : Bool) : L2 C P :=
+  let n0 := l.core.log.length
+  let fatal0 := l.core.fatal
+  let l1 := doStep cfg l (.attach cid exp)
+  let l1 := { l1 with started := l.started || fatal0.isNone }
+  if l1.core.log.length > n0 then
+    match l1.core.log with
+    | (_, r) :: _ => pumpAll cfg k { l1 with results := (rid, k, r) :: l1.results }
+    | [] => l1
+  else
+    let l2 := { l1 with active := l1.active ++ [(rid, cid)], held := if hold then rid :: l1.held else l1.held }
+    let l2 := if pre then doStep cfg l2 (.cancel cid) else l2
+    let l2 := harvest cfg k rid cid (doStep cfg l2 (.scan cid))
+    pumpAll cfg k l2
+
 def event (cfg : Config) (k : Nat) (l : L2 C P) : Event C P → L2 C P
   | .enqueue items => pumpAll cfg k { l with queue := l.queue ++ items }
-  | .recv rid cid exp pre =>
-    let n0 := l.core.log.length
-    let fatal0 := l.core.fatal
-    let l1 := doStep cfg l (.attach cid exp)
-    let l1 := { l1 with started := l.started || fatal0.isNone }
-    if l1.core.log.length > n0 then
-      match l1.core.log with
-      | (_, r) :: _ => pumpAll cfg k { l1 with results := (rid, k, r) :: l1.results }
-      | [] => l1
-    else
-      let l2 := { l1 with active := l1.active ++ [(rid, cid)] }
-      let l2 := if pre then doStep cfg l2 (.cancel cid) else l2
-      let l2 := harvest cfg k rid cid (doStep cfg l2 (.scan cid))
-      pumpAll cfg k l2
+  | .recv rid cid exp pre => recvEvent cfg k l rid cid exp pre false
+  | .recvHeld rid cid exp => recvEvent cfg k l rid cid exp false true
+  | .release rid => pumpAll cfg k { l with held := l.held.filter (· ≠ rid) }
   | .cancel rid =>
     match l.active.find? (fun a => a.1 = rid) with
     | some a => pumpAll cfg k (doStep cfg l (.cancel a.2))
@@ -354,7 +437,12 @@ def event (cfg : Config) (k : Nat) (l : L2 C P) : Event C P → L2 C P
     pumpAll cfg k l1
 
 def runEvents (cfg : Config) (evs : List (Event C P)) : L2 C P :=
-  (evs.foldl (fun (acc : Nat × L2 C P) ev => (acc.1 + 1, event cfg acc.1 acc.2 ev)) (0, {})).2
+  (evs.foldl (fun (acc : Nat × L2 C P) ev =>
+    let l := event cfg acc.1 acc.2 ev
+    let fullAt := match l.fullAt with
+      | some k => some k
+      | none => if l.core.fatal = some .full then some acc.1 else none
+    (acc.1 + 1, { l with obs := (l.core.buffered, l.boxes.length) :: l.obs, fullAt := fullAt })) (0, {})).2
 
 end Sched
 
